@@ -1,5 +1,6 @@
 mod c10;
 mod c11;
+mod c17;
 mod c20;
 mod hostrun;
 
@@ -28,6 +29,17 @@ fn main() {
             "the doctor is required not to panic and not to report more committed history than exists; its posture vocabulary is tallied, not judged",
         ],
         subs: c11::subs,
+        max_shards: 16,
+    },
+    Property {
+        id: "C17",
+        level: "fault_enumeration",
+        rule: "proptest model-based histories of 4-60 operations over six request ids against the real ExternalActionCoordinatorV1 on a WalStorePort wrapper around InMemoryWalStore: Request (valid / zero budget / two attempts / over the byte limit / identity-breaking field change), Claim (valid / stale basis / zero lease / attempt ordinal 1 / authorization issued for another request / unregistered adapter) always with the token reconstructed from the coordinator, Settle (valid with generated kind and 0..24 bytes / over budget / wrong schema / digest mismatch / wrong attempt / wrong adapter / wrong basis / zero evidence) always with the reconstructed grant, RetrySettle (the retained settlement or a different valid one), Observe, CrashRecover (truncating recovery + ExternalActionCoordinatorV1::recover), and store faults armed for the next transition: failure of the n-th frame append, failure of the commit flush, and a flush that reaches the store but reports an error (lost acknowledgement). Reference model: per id the prefix of requested -> claimed -> settled(kind, bytes). After every operation: the outcome class equals the model's (exactly one invalid aspect per operation); a returned token / grant / settlement names the commit whose flush reached the store last (durable before returned); at most one claim grant per id ever; an admitted settlement is for the claimed attempt, within the byte budget, with the submitted bytes; refused steps and retries append nothing, successful steps commit exactly one transaction; after a store fault the coordinator refuses every further call until recovery, and recovery yields the model state before the step (append / flush failure) or after it (lost acknowledgement), from which the step can be issued again exactly once; the lifecycle index (posture, presence of claim / settlement, bytes), the three grant getters and the per-kind transaction counts equal the model; the coordinator recovered from a copy of the log equals the live one (PartialEq over index, Merkle nodes and continuation) with equal index root. Non-trivial = ids in >=2 different stages and >=1 crash or store fault.",
+        assumptions: &[
+            "store faults and crashes use the in-memory store behind a WalStorePort wrapper (public trait); the filesystem store path is covered by C10/C11 for the runtime WAL only",
+            "attempt budgets other than 1 are refused by the implementation (v1), so 'within the declared bounds' is checked on the byte budget and the attempt ordinal",
+        ],
+        subs: c17::subs,
         max_shards: 16,
     },
     Property {
